@@ -53,14 +53,17 @@ func genC20(r *gen.Rand) *C20Case {
 	put("t.toml", map[string]any{"t": map[string]any{"x": 1}})
 	put("bad.yaml", map[string]any{"must": "$required"})
 	put("bad2.json", map[string]any{"r": "$merge:no.such"})
+	put("bad3.yaml", map[string]any{"fine": 1}, map[string]any{"$match": nil, "second": "$required"})
+	put("p.yaml", map[string]any{"base": true})
+	put("p.q.yaml", map[string]any{"top": 1}) // its parent p.yaml is the target of some faults
 	raw("broken.yaml", "a: [1, 2\n")
 	raw("notes.txt", "a.yaml\n")
 	raw("x.ini", "[x]\n")
 	raw("plain", "words\n")
 	// argument vector
-	good := []string{"a.yaml", "a.b.yaml", "c.json", "d/e.yaml", "t.toml", "./a.b.yaml", "d/../c.json", "./d/e.yaml"}
+	good := []string{"a.yaml", "a.b.yaml", "c.json", "d/e.yaml", "t.toml", "./a.b.yaml", "d/../c.json", "./d/e.yaml", "p.q.yaml", "p.q.json"}
 	virtual := []string{"a.b.json", "c.yaml", "a.toml", "d/e.json", "c.yml", "a.b.jsonl"}
-	failing := []string{"bad.yaml", "bad2.json", "broken.yaml", "bad.json"}
+	failing := []string{"bad.yaml", "bad2.json", "broken.yaml", "bad.json", "bad3.yaml", "bad3.json"}
 	pass := []string{"apply", "get", "-f", "-v", "--dry-run", "--opt=value", "--file=a.b.yaml", "-o=c.json", "notes.txt", "x.ini", "plain",
 		"nosuch.yaml", "nosuch", "a.b", "a.yaml.bak", "", "--", "-", "a.b.yaml ", "d", "d/", "zz/a.yaml", "a.xml", "--filename=d/e.yaml", "-f=a.yaml",
 		"notes.json", "plain.yaml", "x.toml", "./notes.txt", "d/../notes.txt", "a=b", "--set", "k=v.yaml", "e.yaml", "-o", "yaml", ".yaml", "a..yaml"}
@@ -80,13 +83,15 @@ func genC20(r *gen.Rand) *C20Case {
 	}
 	// at most one fault, on a layer of one file argument
 	if r.Chance(0.3) {
-		switch r.Intn(5) {
+		switch r.Intn(6) {
+		case 5:
+			c.Fault, c.FaultOn = "directory", r.Pick("a.yaml", "p.yaml")
 		case 0:
-			c.Fault, c.FaultOn = "delete", "a.yaml"
+			c.Fault, c.FaultOn = "delete", r.Pick("a.yaml", "p.yaml")
 		case 1:
-			c.Fault, c.FaultOn = "corrupt", r.Pick("a.yaml", "a.b.yaml", "c.json")
+			c.Fault, c.FaultOn = "corrupt", r.Pick("a.yaml", "a.b.yaml", "c.json", "p.yaml")
 		case 2:
-			c.Fault, c.FaultOn = "openat-EIO", r.Pick("a.yaml", "a.b.yaml", "c.json", "e.yaml")
+			c.Fault, c.FaultOn = r.Pick("openat-EIO", "openat-EACCES", "read-EIO"), r.Pick("a.yaml", "a.b.yaml", "c.json", "d/e.yaml", "p.yaml")
 		case 3:
 			c.Fault = "tmpdir-missing"
 		default:
@@ -155,8 +160,13 @@ func judgeC20(e *Env, c *C20Case, tag string, run int64) (*c20Obs, error) {
 		_ = os.Remove(filepath.Join(cwd, c.FaultOn))
 	case "corrupt":
 		_ = os.WriteFile(filepath.Join(cwd, c.FaultOn), []byte("{ \"a\": [ 1,"), 0o644)
-	case "openat-EIO":
-		inv.Injects = append(inv.Injects, procsim.Inject{Syscall: "openat", Path: filepath.Join(c20Dir, c.FaultOn), Errno: "EIO"})
+	case "directory":
+		_ = os.Remove(filepath.Join(cwd, c.FaultOn))
+		_ = os.Mkdir(filepath.Join(cwd, c.FaultOn), 0o755)
+	case "openat-EIO", "openat-EACCES":
+		inv.Injects = append(inv.Injects, procsim.Inject{Syscall: "openat", Path: filepath.Join(c20Dir, c.FaultOn), Errno: strings.TrimPrefix(c.Fault, "openat-")})
+	case "read-EIO":
+		inv.Injects = append(inv.Injects, procsim.Inject{Syscall: "read", Path: filepath.Join(c20Dir, c.FaultOn), Errno: "EIO", When: "1"})
 	case "tmpdir-missing":
 		_ = os.RemoveAll(filepath.Join(root, "tmp"))
 	case "tmpdir-is-file":
@@ -178,7 +188,7 @@ func judgeC20(e *Env, c *C20Case, tag string, run int64) (*c20Obs, error) {
 		refs[i].resolvable = true
 		obs.Resolvable++
 		ri := &procsim.Invocation{Kind: "stock", Args: []string{"--", a}, Cwd: c20Dir}
-		if c.Fault == "openat-EIO" {
+		if strings.HasPrefix(c.Fault, "openat-") || c.Fault == "read-EIO" {
 			ri.Injects = inv.Injects
 		}
 		o, err := runInv(e, root, "bkl", ri)
@@ -204,7 +214,7 @@ func judgeC20(e *Env, c *C20Case, tag string, run int64) (*c20Obs, error) {
 		return nil, err
 	}
 	obs.Outcome = trimOutcome(out)
-	obs.Fired = c.Fault != "" && (out.Injected > 0 || !strings.HasPrefix(c.Fault, "openat"))
+	obs.Fired = c.Fault != "" && (out.Injected > 0 || !(strings.HasPrefix(c.Fault, "openat") || c.Fault == "read-EIO"))
 	if out.Crash != "" || out.StepsOut || out.CPUOut {
 		return obs, nil
 	}
